@@ -87,6 +87,11 @@ of_status_t	of_2d_parity_release_codec_instance (of_2d_parity_cb_t*	ofcb)
 #ifdef OF_USE_DECODER
 	if(ofcb->codec_type & OF_DECODER)
 	{
+		if (ofcb->tmp_tab_symbols != NULL)
+		{
+			of_free (ofcb->tmp_tab_symbols);
+			ofcb->tmp_tab_symbols = NULL;
+		}
 		if (ofcb->tab_nb_enc_symbols_per_equ != NULL)
 		{
 			of_free (ofcb->tab_nb_enc_symbols_per_equ);
@@ -242,6 +247,10 @@ of_status_t	of_2d_parity_set_fec_parameters (of_2d_parity_cb_t*	ofcb,
 				ofcb->tab_nb_equ_for_repair[seq - ofcb->nb_source_symbols]++;
 			}
 		}
+		/* scratch table needed by ML decoding */
+		if ((ofcb->tmp_tab_symbols = (void**) of_malloc (sizeof(void*) * ofcb->nb_total_symbols)) == NULL) {
+			goto no_mem;
+		}
 	}
 #endif //OF_USE_DECODER
 	ofcb->nb_source_symbol_ready = 0; // Number of source symbols ready
@@ -371,11 +380,13 @@ of_status_t	of_2d_parity_set_available_symbols (of_2d_parity_cb_t*	ofcb,
 	UINT32 i;
 	for (i = 0; i < ofcb->nb_total_symbols; i++)
 	{
-		if (encoding_symbols_tab[i] != NULL)
+		if (encoding_symbols_tab[i] == NULL)
 		{
-			ofcb->encoding_symbols_tab[i] = of_calloc (1, ofcb->encoding_symbol_length);
-			memcpy (ofcb->encoding_symbols_tab[i], encoding_symbols_tab[i], ofcb->encoding_symbol_length);
+			continue;
 		}
+		/* use the decode_with_new_symbol function, as the LDPC-Staircase codec does, so that
+		 * the decoder bookkeeping stays consistent and no private copy of source symbols is kept */
+		of_linear_binary_code_decode_with_new_symbol((of_linear_binary_code_cb_t*)ofcb, encoding_symbols_tab[i], i);
 	}
 	OF_EXIT_FUNCTION
 	return OF_STATUS_OK;
